@@ -7,13 +7,18 @@ E2: every ordered filter list through do_call(filters=[...]); the list is replay
 do_call result with the stepwise result.
 Oracle: models/filters.py (run-length merging; conservation clauses evaluated separately).
 """
+import atexit
 import itertools
 import math
+import os
+import shutil
+import tempfile
 
 from checks.common import np, pd
 from mc.engine import Exc
 from models import filters as M
 
+from cnvlib import commands as CMD  # noqa: E402
 from cnvlib import segfilters  # noqa: E402  (after checks.common bound the tree under test)
 from cnvlib.call import do_call  # noqa: E402
 from cnvlib.cnary import CopyNumArray as CNA  # noqa: E402
@@ -174,6 +179,9 @@ def describe(tier):
             )
             + "; method none and the non-default index (6 lists) on tables of <= %d segments" % b["chain_side_n"],
             "chain_baf": "layouts %s, 6 (log2, baf) symbols incl. missing baf, 5 lists, methods %s" % (b["baf_layouts"], b["baf_methods"]),
+            "history": "one table object through every word of %s do_call(filters=list) calls over 7 lists (none, cn, ampdel, ci, sem, ci+cn, cn+ampdel), (log2, baf) tables with layouts %s; "
+            "`call --filter` command lines: every word of 2 commands over 7 option sets in one process, layouts %s; methods %s"
+            % (("2 and 3" if tier == "thorough" else "2"), ("[1],[2],[1,1],[3]" if tier == "thorough" else "[1],[2],[1,1]"), ("[1],[2],[1,1]" if tier == "thorough" else "[1],[2]"), b["baf_methods"]),
         },
         "alphabet": {
             "direct": {k: {a: [list(s) if isinstance(s, tuple) else s for s in v] for a, v in d.items()} for k, d in ALPHA.items()},
@@ -196,6 +204,8 @@ def describe(tier):
             "tables are sorted, non-overlapping, chromosomes contiguous, index labels unique (do_call itself resets duplicated labels)",
             "method='none' with a cn-based filter is only observed (the statement does not say it must refuse)",
             "that do_call leaves the caller's filter list alone is C10's business: a fresh list is passed to every call",
+            "history scopes: the answer for a fresh copy of the table (checked against the model in the chain scope) is the expected answer on a reused table object / in a reused process; "
+            "command-line results are compared to 1e-5 relative (files hold 6 significant digits)",
         ],
     }
 
@@ -715,10 +725,157 @@ def cases(tier):
                 continue
             for p in [None] if n == 1 else [list(q) for q in itertools.product(range(len(BAF_ALPHA)), repeat=n - 1)]:
                 yield {"check": "chain", "which": "baf", "kind": "chain-baf", "alpha": "full", "layout": layout, "index": "default", "prefix": p, "tier": tier}
+    yield from history_cases(tier)
+
+
+# ---- histories: the same table object, or the same process, used for more than one filter list -----------
+HIST_LISTS = [[], ["cn"], ["ampdel"], ["ci"], ["sem"], ["ci", "cn"], ["cn", "ampdel"]]
+CLI_LISTS = [[], ["cn"], ["ampdel"], ["ci"], ["sem"], ["ci", "cn"], ["ampdel", "cn"]]
+_TMP = None
+
+
+def tmpdir():
+    global _TMP
+    if _TMP is None:
+        _TMP = tempfile.mkdtemp(prefix="c14_", dir="/tmp")
+        atexit.register(shutil.rmtree, _TMP, True)
+    return _TMP
+
+
+def rows_match(a_rows, b_rows, rel):
+    """Tables equal: same rows, integers and levels exact, floats to `rel` (a file holds 6 significant digits)."""
+    if isinstance(a_rows, str) or isinstance(b_rows, str) or len(a_rows) != len(b_rows):
+        return False
+    for a, b in zip(a_rows, b_rows):
+        for c in CMP_COLS:
+            x, y = a.get(c), b.get(c)
+            if x is None or y is None:
+                if not (x is None and y is None):
+                    return False
+            elif isinstance(x, str) or isinstance(y, str):
+                if x != y:
+                    return False
+            elif abs(float(x) - float(y)) > rel * max(1.0, abs(float(x)), abs(float(y))):
+                return False
+    return True
+
+
+def run_history(case, ctx):
+    """One table object handed to do_call several times with different filter lists: every answer must be the one a
+    fresh copy of the table gets (the differential oracle; the fresh answers are what the chain scope checks against the model)."""
+    layout, method, depth = case["layout"], case["method"], case["depth"]
+    n = sum(layout)
+    sub = None
+    for syms in words(BAF_ALPHA, n, case.get("prefix")):
+        rows = make_rows("chain-baf", layout, syms)
+        df0 = to_frame(rows, "default")
+        base = {}
+        for i, fl in enumerate(HIST_LISTS):
+            got = ctx.call(do_call, fresh(df0), method=method, filters=list(fl))
+            base[i] = got if isinstance(got, Exc) else read_rows(got)
+        for word in itertools.product(range(len(HIST_LISTS)), repeat=depth):
+            shared = fresh(df0)
+            sub = {"table": public(rows), "method": method, "history": [HIST_LISTS[i] for i in word]}
+            for pos, i in enumerate(word):
+                got = ctx.call(do_call, shared, method=method, filters=list(HIST_LISTS[i]))
+                ctx.trace()
+                want = base[i]
+                if isinstance(want, Exc) or isinstance(got, Exc):
+                    ok = isinstance(want, Exc) and isinstance(got, Exc)
+                    obs = got
+                else:
+                    obs = read_rows(got)
+                    ok = rows_match(want, obs, 1e-9)
+                if not ok:
+                    before = "+".join(sorted({"-".join(HIST_LISTS[j]) or "none" for j in word[:pos]})) or "nothing"
+                    ctx.violation(
+                        "do_call(filters=list) on a table gives the filtered table whatever was asked of the same table object before",
+                        f"history/do_call/{method}/{'-'.join(HIST_LISTS[i]) or 'none'}/after:{before}",
+                        expected=want,
+                        observed=obs,
+                        sub={**sub, "failing_call": pos},
+                    )
+                    break
+            ctx.state(("history", method, layout, [list(x) for x in syms], word), nontrivial=len(set(word)) > 1)
+        ctx.stratum(f"history/{method}/words of {depth} calls on one table object")
+    ctx.sample("history", sub)
+
+
+def cli_call(path, method, flist, out):
+    if os.path.exists(out):
+        os.remove(out)
+    argv = ["call", path, "-m", method, "-o", out]
+    for f in flist:
+        argv += ["--filter", f]
+    args = CMD.parse_args(argv)
+    args.func(args)
+    return CNA(pd.read_csv(out, sep="\t", dtype={"chromosome": str}), {"sample_id": "s"})
+
+
+def run_cli_history(case, ctx):
+    """`cnvkit.py call -m M --filter F ...` run several times in one process (parse_args + func, as the entry point does):
+    each command line must apply exactly the filters it names; oracle = do_call(filters=list) through the API on a fresh table."""
+    layout, method = case["layout"], case["method"]
+    n = sum(layout)
+    sub = None
+    for syms in words(BAF_ALPHA, n, case.get("prefix")):
+        rows = make_rows("chain-baf", layout, syms)
+        df0 = to_frame(rows, "default")
+        path = os.path.join(tmpdir(), "in.cns")
+        out = os.path.join(tmpdir(), "out.cns")
+        df0.to_csv(path, sep="\t", index=False, na_rep="")
+        base = {}
+        for i, fl in enumerate(CLI_LISTS):
+            got = ctx.call(do_call, fresh(df0), method=method, filters=list(fl))
+            base[i] = got if isinstance(got, Exc) else read_rows(got)
+        for word in itertools.product(range(len(CLI_LISTS)), repeat=case["depth"]):
+            sub = {"table": public(rows), "method": method, "command_lines": [CLI_LISTS[i] for i in word]}
+            for pos, i in enumerate(word):
+                got = ctx.call(cli_call, path, method, CLI_LISTS[i], out)
+                ctx.trace()
+                want = base[i]
+                if isinstance(want, Exc) or isinstance(got, Exc):
+                    ok = isinstance(want, Exc) and isinstance(got, Exc)
+                    obs = got
+                else:
+                    obs = read_rows(got)
+                    ok = rows_match(want, obs, 1e-5)
+                if not ok:
+                    ctx.violation(
+                        "each `call --filter` command applies the filters it names (and no others), in one process as in many",
+                        f"cli-history/call/{method}/{'-'.join(CLI_LISTS[i]) or 'none'}/" + ("first-command" if pos == 0 else "later-command"),
+                        expected=want,
+                        observed=obs,
+                        sub={**sub, "failing_command": pos},
+                    )
+                    break
+            ctx.state(("cli-history", method, layout, [list(x) for x in syms], word), nontrivial=len(set(word)) > 1)
+        ctx.stratum(f"cli-history/{method}/words of {case['depth']} command lines in one process")
+    ctx.sample("cli-history", sub)
+
+
+def history_cases(tier):
+    t = tier == "thorough"
+    for method in ("threshold", "clonal") if t else ("threshold",):
+        for layout in ([1], [2], [1, 1], [3]) if t else ([1], [2], [1, 1]):
+            n = sum(layout)
+            for depth in (2, 3) if t else (2,):
+                if depth == 3 and n > 2:
+                    continue
+                for p in [None] if n == 1 else [list(q) for q in itertools.product(range(len(BAF_ALPHA)), repeat=1)]:
+                    yield {"check": "history", "method": method, "layout": layout, "depth": depth, "prefix": p}
+        for layout in ([1], [2], [1, 1]) if t else ([1], [2]):
+            n = sum(layout)
+            for p in [None] if n == 1 else [list(q) for q in itertools.product(range(len(BAF_ALPHA)), repeat=1)]:
+                yield {"check": "cli-history", "method": method, "layout": layout, "depth": 2, "prefix": p}
 
 
 def run(case, ctx):
     c = case["check"]
+    if c == "history":
+        return run_history(case, ctx)
+    if c == "cli-history":
+        return run_cli_history(case, ctx)
     if c == "levels":
         run_levels(case, ctx)
     elif c == "weights":
@@ -744,5 +901,6 @@ MANIFEST = {
     "zero-weight runs, cn of a merged ampdel run, CI touching zero, allele-aware splitting by ampdel/ci/sem. Not covered: tables beyond the "
     "bound (the statement's 6 chromosomes x 30 segments), unsorted or overlapping tables, purity rescaling and VCF input before filtering.",
     "technique": "exhaustive enumeration of segment tables and ordered filter lists on the real code against a run-length reference model and "
-    "separately evaluated conservation clauses",
+    "separately evaluated conservation clauses; stateless enumeration of all call histories of depth 2 (thorough 3) on one table object and of all pairs of `call --filter` "
+    "command lines in one process, differential oracle (fresh-object answer)",
 }
